@@ -337,7 +337,8 @@ def r74(facts, res):
     import c06
     c06.r610(facts, res, 'R7.6')       # a Shift is recorded only for a move that consumed a lexeme: the three trailing shifts are three real lexemes
     import c05
-    c05.r56(facts, res, 'R7.7')        # the replay on the real stacks moves as far as the sequence says: else the driver re-reports inside the repaired stretch
+    c05.r56(facts, res, 'R7.7')
+    c05.r57(facts, res, 'R7.8')       # the replay parses [i, end): an inclusive end moves the real stack further than the search did        # the replay on the real stacks moves as far as the sequence says: else the driver re-reports inside the repaired stretch
 
 
 def r75(facts, res):
